@@ -253,7 +253,21 @@ type chunkReq struct {
 	peer int
 	h    uint64
 	f, i uint32
+	at   time.Duration // simulated time at which the harness saw the request
 }
+
+// Contract of the cooperative modes (honest, coop): the environment owes the reactor an answer
+// to every application call, an answer to every chunk request it does not drop (at most
+// dropBudget() consecutive drops per chunk), the advertisement of every snapshot a connected
+// peer has, and at least one connected peer. Next keeps every debt younger than forceAfter; a
+// run (in particular a reduced replay) in which some debt got older than oweLimit is outside
+// the contract and is not judged for completeness. Under the contract a correct syncer always
+// reaches the next application call (or returns) well within stuckAfter.
+const (
+	forceAfter = 12 * time.Second
+	oweLimit   = 30 * time.Second
+	stuckAfter = 150 * time.Second
+)
 
 type verdict struct {
 	res     int32
@@ -428,6 +442,14 @@ type sim struct {
 	nonAccept      int
 	ticks          int
 	idleOps        int // consecutive actions without any application call / chunk request
+
+	// contract bookkeeping of the cooperative modes
+	lastProgress   time.Duration // last application call arrival / verdict release
+	pendSince      time.Duration
+	freshSince     time.Duration // -1: every connected peer has advertised what it has
+	noPeerSince    time.Duration // -1: some peer is connected
+	contractBroken string
+	drops          map[[3]uint64]int
 }
 
 // onDriver: the logger must never Goexit the driver goroutine. The driver sets driverFlag
@@ -440,7 +462,7 @@ func newSim(env *simcore.Env, cfg simcore.Op) simcore.Sim {
 	s := &sim{env: env, cfg: cfg, mode: cfg.Str("mode"), opsLeft: cfg.Int("nops"),
 		advertisers: map[string]map[string]bool{}, everAdvertised: map[string]bool{}, rejectedPeer: map[string]int{},
 		rejectedSnap: map[string]bool{}, rejectedFmt: map[uint32]bool{}, lastRefetch: map[uint32]int{},
-		release: make(chan verdict, 1), exited: make(chan struct{})}
+		release: make(chan verdict, 1), exited: make(chan struct{}), freshSince: -1, noPeerSince: -1, drops: map[[3]uint64]int{}}
 	s.m.reset()
 	env.Count("mode." + s.mode)
 	s.tmp = filepath.Join(env.MkScratch(), "tmp")
@@ -716,13 +738,21 @@ func (s *sim) observe() {
 		if lr := s.lastRefetch[r.i]; lr > 0 && s.m.live() && r.h == s.m.h && r.f == s.m.f {
 			e.Count("probe.refetch_requested")
 		}
-		if s.alive[r.peer] && len(s.outstanding) < 64 {
+		dup := false
+		for _, o := range s.outstanding {
+			if o.peer == r.peer && o.h == r.h && o.f == r.f && o.i == r.i {
+				dup = true // a retry of a request that is still unanswered: one answer is owed
+			}
+		}
+		if s.alive[r.peer] && !dup && len(s.outstanding) < 64 {
+			r.at = s.now()
 			s.outstanding = append(s.outstanding, r)
 		}
 	}
 	if c := s.pendingCall(); c != nil && !c.seen {
 		c.seen = true
 		s.idleOps = 0
+		s.lastProgress, s.pendSince = s.now(), s.now()
 		s.onCall(c)
 	}
 	if done, _, _, _ := s.result(); done && !s.doneSeen {
@@ -735,7 +765,74 @@ func (s *sim) observe() {
 			nAlive++
 		}
 	}
+	s.judgeContract(nAlive)
 	e.State(s.m.phase, len(s.m.returned), len(s.m.spec), nAlive, len(s.rejectedPeer), len(s.rejectedSnap), len(s.rejectedFmt), len(s.outstanding) > 0)
+}
+
+func (s *sim) now() time.Duration { return time.Since(s.env.Start) }
+
+// freshOwed: some connected peer was asked for its snapshots and has not advertised all of them.
+func (s *sim) freshOwed() bool {
+	for p, a := range s.alive {
+		if !a || s.snapReqs[p] == 0 {
+			continue
+		}
+		for _, k := range s.advertisable(p) {
+			if !s.adverts[p][s.cat[k].key()] {
+				return true
+			}
+		}
+	}
+	return false
+}
+
+func (s *sim) dropBudget() int {
+	switch {
+	case s.mode != "coop":
+		return 0
+	case s.cfg.Int("retry_ms") <= 3000:
+		return 2
+	case s.cfg.Int("retry_ms") <= 10000:
+		return 1
+	}
+	return 0
+}
+
+// judgeContract records whether the environment kept its side of the cooperative contract.
+func (s *sim) judgeContract(nAlive int) {
+	if s.mode == "wild" || s.contractBroken != "" {
+		return
+	}
+	if done, _, _, _ := s.result(); done {
+		return
+	}
+	now := s.now()
+	track := func(since *time.Duration, cond bool) bool {
+		switch {
+		case !cond:
+			*since = -1
+		case *since < 0:
+			*since = now
+		}
+		return cond && now-*since > oweLimit
+	}
+	switch {
+	case track(&s.noPeerSince, nAlive == 0):
+		s.contractBroken = "no peer connected"
+	case track(&s.freshSince, s.freshOwed()):
+		s.contractBroken = "snapshot advertisement withheld"
+	}
+	if c := s.pendingCall(); c != nil && c.seen && !c.answered && now-s.pendSince > oweLimit {
+		s.contractBroken = "application verdict withheld"
+	}
+	for _, r := range s.outstanding {
+		if now-r.at > oweLimit {
+			s.contractBroken = "chunk request unanswered"
+		}
+	}
+	if s.contractBroken != "" {
+		s.env.Count("probe.coop_contract_broken")
+	}
 }
 
 func (s *sim) catIndex(key string) int {
@@ -758,22 +855,26 @@ func errClass(err error) string {
 // ---------------------------------------------------------------- Finish / Close
 
 func (s *sim) Finish() {
-	if s.initFailed {
+	if s.initFailed || s.mode == "wild" {
+		return
+	}
+	// Completeness, judged on the trace itself: the environment kept the cooperative contract
+	// (honest peers that answer in time, honest RPC servers, an application that after a bounded
+	// number of retries / refetches accepts and reports the verified values), and yet Sync failed
+	// or made no progress for stuckAfter of simulated time.
+	if s.contractBroken != "" {
+		s.env.Logf("contract broken: %s", s.contractBroken)
 		return
 	}
 	done, _, _, err := s.result()
-	if s.mode != "wild" {
-		// completeness: honest peers, honest RPC servers, an application that (after bounded
-		// retries/refetches) accepts and reports the verified values
-		if !done {
-			s.env.Fail("C14", "honest-sync-incomplete", "mode %s: Sync has not returned after %d ms of simulated time and %d actions (phase %s, %d/%d chunks applied)", s.mode, s.simMs(), s.cfg.Int("nops"), s.m.phase, len(s.m.returned), s.m.n)
-		}
-		if err != nil {
-			s.env.Fail("C14", "honest-sync-failed", "mode %s: Sync failed: %v", s.mode, err)
-		}
-		if ms := s.simMs(); ms > 15*60*1000 {
-			s.env.Fail("C14", "honest-sync-slow", "mode %s: Sync needed %d ms of simulated time", s.mode, ms)
-		}
+	switch {
+	case done && err != nil:
+		s.env.Fail("C14", "honest-sync-failed", "mode %s: Sync failed: %v", s.mode, err)
+	case !done && s.now()-s.lastProgress > stuckAfter:
+		s.env.Fail("C14", "honest-sync-incomplete", "mode %s: every request of the reactor was answered in time, yet for %d ms of simulated time (since t=%d ms) Sync has neither called the application nor returned (phase %s, %d/%d chunks applied, %d requests unanswered)",
+			s.mode, (s.now() - s.lastProgress).Milliseconds(), s.lastProgress.Milliseconds(), s.m.phase, len(s.m.returned), s.m.n, len(s.outstanding))
+	case !done:
+		s.env.Count("probe.coop_unfinished")
 	}
 }
 
